@@ -289,7 +289,50 @@ def params_consts():
     return {"exit_restores_all": restores_all}
 
 
+def context_consts():
+    """generate_async writes the per-request context variables on entry, unconditionally."""
+    cls = _cls(_parse(LLMRAILS), "LLMRails")
+    gen = next((n for n in cls.body if isinstance(n, ast.AsyncFunctionDef) and n.name == "generate_async"), None)
+    if gen is None:
+        raise TranslatorError("LLMRails.generate_async not found")
+    body = _strip_doc(gen.body)
+    want = _stmt_dump("generation_options_var.set(options)")[0]
+    top = [i for i, st in enumerate(body) if _dump(st) == want]
+    nested = [n for n in ast.walk(gen) if isinstance(n, ast.Expr) and _dump(n) == want]
+    # index of the statement that turns the messages into events (everything that reads the
+    # variables runs after it)
+    use = [i for i, st in enumerate(body) if any(isinstance(n, ast.Attribute) and n.attr == "_get_events_for_messages" for n in ast.walk(st))]
+    if len(use) != 1:
+        raise TranslatorError("generate_async: call of _get_events_for_messages not found at top level")
+    if len(nested) != 1:
+        raise TranslatorError("generate_async: expected exactly one generation_options_var.set(options)")
+    if top:
+        if top[0] > use[0]:
+            raise TranslatorError("generate_async: generation_options_var is set after the events are computed")
+        always = True
+    else:
+        # recognised regression shape: only inside `if options:`
+        holders = [n for n in ast.walk(gen) if isinstance(n, ast.If) and any(_dump(x) == want for x in n.body)]
+        if len(holders) == 1 and _dump(holders[0].test) == _expr("options"):
+            always = False
+        else:
+            raise TranslatorError("generate_async: generation_options_var.set(options) is in an unrecognised place")
+    # raw_llm_request: set in both branches of `if prompt is not None`; llm_stats_var: top level
+    ok_raw = False
+    for st in body[:use[0]]:
+        if isinstance(st, ast.If) and _dump(st.test) == _expr("prompt is not None"):
+            a = any(_dump(x) == _stmt_dump("raw_llm_request.set(prompt)")[0] for x in st.body)
+            b = any(_dump(x) == _stmt_dump("raw_llm_request.set(messages)")[0] for x in st.orelse)
+            ok_raw = a and b
+    if not ok_raw:
+        raise TranslatorError("generate_async: raw_llm_request is not set in both branches of `if prompt is not None`")
+    if not any(_dump(st) == _stmt_dump("llm_stats_var.set(llm_stats)")[0] for st in body[:use[0]]):
+        raise TranslatorError("generate_async: llm_stats_var.set(llm_stats) not found before the events are computed")
+    return {"options_always_set": always}
+
+
 def emit():
+    x = context_consts()
     k = history_key_consts()
     c = history_cache_consts()
     p = params_consts()
@@ -314,6 +357,9 @@ def emit():
         "(* --- rails/llm/llmrails.py::_get_events_for_messages / generate_async --- *)",
         "(* prefixes messages[0:p] are tried for p = len-1 .. 1; stored for messages + [new_message] *)",
         f"Definition hist_lookup_verifies_messages : bool := {coq_bool(c['verifies'])}.",
+        "",
+        "(* --- rails/llm/llmrails.py::generate_async, per-request context variables --- *)",
+        f"Definition ctx_options_always_set : bool := {coq_bool(x['options_always_set'])}.",
         "",
         "(* --- llm/params.py::LLMParams --- *)",
         f"Definition params_exit_restores_all : bool := {coq_bool(p['exit_restores_all'])}.",
